@@ -50,6 +50,7 @@ THEOREMS = [
         "dmig_structure dmig_form6_iff dmig_roundtrip dmig_ncol_form9 dmig_header_ncol "
         "int_field_roundtrip int_field_padL set_roundtrip set_any_wrap tabled1_roundtrip "
         "dmig_roundtrip_converse dmig_assignments_iff dmig_reader_on_written dmig_frame_roundtrip "
+        "dmig_value_field dmig_lines_cards dmig_text_roundtrip "
         "vecwrite_length_rule vecwrite_mismatch_raises vecwrite_broadcast wtgrids_packaging wtgrids_mismatch_raises "
         "grid_roundtrip cord2_roundtrip uset_roundtrip"
     ).split()
@@ -106,9 +107,9 @@ PARTIAL = (
     "the decimal rendering and parsing of a single REAL field (parse(format(x)) ~ x) is not proved here (C12's domain): "
     "coordinates, table values and DMIG terms enter the theorems as opaque written fields and the theorems say the reader "
     "returns nas_sscanf(field) (`nasScan`; `enc` in the DMIG theorems) — integer fields are proved exactly "
-    "(int_field_roundtrip); dmig_frame_roundtrip / dmig_reader_on_written start from the card values `rdcards` returns for "
-    "the written DMIG cards (`Dmig.written`): the step from the physical DMIG lines to those card values is tied by the "
-    "rdcards / rddmig correspondence streams only (the same step IS proved for GRID, CORD2x, TABLED1 and SET); "
+    "(int_field_roundtrip); the DMIG theorems on physical lines (dmig_lines_cards, dmig_text_roundtrip) cover integer-valued "
+    "terms with at most 10 digits (the model's `fmtE9` renders exactly those; other values are compared through the oracle) "
+    "and a name that nas_sscanf returns unchanged; "
     "spoint_roundtrip / csuper_roundtrip / extrn_roundtrip remain stated on card fields (`Fld.val`), not on physical "
     "lines; set_roundtrip assumes max_length >= the longest token (shorter max_length splits tokens: writer text is "
     "correspondence-checked, no round trip claimed); rdcord2cards is modelled up to the twelve numbers per card handed to "
@@ -127,7 +128,9 @@ MANIFEST = {
     "structure, form 6 iff identical index lists and mirrored matrix, the reader's assignments are EXACTLY the non-zero "
     "terms (both directions, mirror included), and rddmig(wtdmig(X)) = X as one statement on the card values: sorted "
     "duplicate-free row/column index = labels of the non-null rows/columns (union for form 6), every cell = the term (0 "
-    "for a zero term, imaginary part 0 for real types), nothing lost, for forms 1/2/6/9 and types 1-4; writer.vecwrite: "
+    "for a zero term, imaginary part 0 for real types), nothing lost, for forms 1/2/6/9 and types 1-4 — and the same on "
+    "the physical lines of wtdmig (rddmig(text) returns exactly that one frame under the lower-cased name) for "
+    "integer-valued terms of at most 10 digits; writer.vecwrite: "
     "the length rule (every argument longer than 1 has the row count, a later length-1 argument cannot reset it, two "
     "different lengths raise) and the broadcast semantics for every packaging; wtgrids writes the text of the fully "
     "expanded call for every packaging (scalar / length-1 / length-N, xyz 1 or N rows) and rdgrids(wtgrids(...)) returns "
@@ -139,8 +142,8 @@ MANIFEST = {
     "written and independently rendered texts. Right level: the layer is list/column/character arithmetic, fully "
     "provable; single real-field formats are C12, coordinate geometry C14.",
     "level_note": "Trusted: Lean kernel; propext, Classical.choice, Quot.sound; the Python harness; CPython integer "
-    "formatting. Not proved (tied by correspondence / oracle only): parse(format(x)) of one real field (C12); the step from "
-    "physical DMIG lines to the card values the DMIG theorems start from; SPOINT / CSUPER / EXTRN on physical lines "
+    "formatting. Not proved (tied by correspondence / oracle only): parse(format(x)) of one real field (C12); DMIG text "
+    "with non-integer terms (the card-value theorems cover them through `enc`); SPOINT / CSUPER / EXTRN on physical lines "
     "(card-field level proved); token splitting for max_length shorter than a token; n2p.build_coords / addgrid / "
     "mkcordcardinfo behind rdcord2cards / bulk2uset / uset2bulk (C14); rddmig(expanded / square) and op2 DMIG.",
     "technique": "Lean 4 proof (induction over run/line/column/character structure) + exact-text differential "
